@@ -87,6 +87,9 @@ def classify(f, sites):
         return [("Pointset_Powerset::ascii_load", ["out_of_date_parts_of_disjunct_dropped"], tags)]
     if tags.startswith("bad_negative_float") and what == "load_false":
         return [("float_mpq_to_string", ["negative_float_sign_after_leading_zeros"], tags)]
+    if cls == "PIP_Problem" and what.startswith("suffix_") and tags == "loaded_pip_tree_has_decision_node":
+        # the twin was loaded from a text whose solution tree has a decision node: its children have no parent pointer
+        return [("PIP_Decision_Node::ascii_load", ["children_loaded_without_parent_pointer"], what)]
     unexplained = lambda why: [(cls + "::" + ("ascii_load" if not what.startswith("section") else what), [], why)]
     if what == "redump_differs" and f["diff"] and f["diff"] != "structural":
         # every differing line must be a status line in which only flags go from '-' (text) to '+' (loaded) and the
